@@ -39,7 +39,8 @@ EXTENDS Integers, Sequences, FiniteSets, TLC
 
 CONSTANTS VMax,          \* the environment offers the raw items -VMax..VMax
           MaxLen,        \* longest item sequence
-          KMul, KAdd,    \* key_mapper = lambda r: KMul * r + KAdd
+          KAbs, KNeg, KAdd,  \* key_mapper = lambda r: KMul * r + KAdd, KMul = +-KAbs
+                         \* (a cfg file cannot hold a negative number)
           FormalClears,  \* TRUE: formal._variance does acc.clear() (current code)
           POps,          \* operator instances subscribed (model checking)
           KeepHist       \* TRUE: record the item order (behaviour generation)
@@ -68,6 +69,7 @@ vars == <<bag, nrecv, hist, unit, inst, done, kmCalls, sumAcc, meanAcc, minAcc, 
           lastS, lastR, cntS, cntR, st>>
 
 Vals == (-VMax)..VMax
+KMul == IF KNeg THEN -KAbs ELSE KAbs
 
 Ops == {"sum", "mean", "min", "max", "variance", "stddev",
         "formal.variance", "formal.stddev"}
@@ -290,7 +292,9 @@ Complete ==
     /\ UNCHANGED <<bag, nrecv, hist, unit, inst, kmCalls, sumAcc, meanAcc, minAcc, maxAcc, wel, fAccS,
                    lastS, cntS, st>>
 
-Next == (\E a \in Vals : nrecv < MaxLen /\ Item(a)) \/ Complete
+Feed == \E a \in Vals : nrecv < MaxLen /\ Item(a)
+
+Next == Feed \/ Complete
 
 Spec == Init /\ [][Next]_vars
 
